@@ -48,7 +48,7 @@ ASSUMPTIONS = [
 _MS = None
 _MCOUNT = [0]
 
-_SC = st.sampled_from([0, 1, 2, 3, "a", "b", None, True, 1.5])
+_SC = st.sampled_from([0, 1, 2, 3, "a", "b", None, True, 1.5, "aa", "a+", "(", "[a", "b*", "ab"])
 _ITEM = st.fixed_dictionaries({"a": _SC, "b": _SC}, optional={"c": st.lists(_SC, max_size=3)})
 SCHEMA_DOC = st.one_of(
     st.fixed_dictionaries({"a": _SC, "b": st.lists(_ITEM, min_size=2, max_size=5), "c": st.fixed_dictionaries({"a": _SC, "b": _SC})}),
@@ -59,7 +59,8 @@ SCHEMA_DOC = st.one_of(
 TEMPLATES = [
     "$.b[?@.a == $.a]", "$.b[?@.a != $.a]", "$.b[?@.a < $.c.a || @.b == $.a]", "$..[?@.a == $.a]", "$..[?@.b == _.a]", "$.b[?@.a == _.a && @.b != $.a]",
     "$.b[?count($.b[?@.a == $.a]) > 0 && @.b]", "$.b[?@.c[?@ == $.a]]", "$.b[?# == $.a || @.a == 1]", "$.b[?$.c.a == 1 || @.a]", "$.b[?@.a in _.c || @.b == $.c.b]",
-    "$.b[?length($.b) > @.a]", "$.b[?@.a == $.a].b", "$..b[?@.a <= $.a][?@.b >= $.c.b]", "$.b[?@.a == $.a, ?@.b == $.a]", "$.b[?!(@.a == $.a) && @.b == _.b]",
+    "$.b[?length($.b) > @.a]", "$.b[?@.a == $.a].b", "$.b[?search(@.a, $.a)]", "$.b[?match(@.b, $.c.a)]", "$.b[?search(@.b, _.a) || @.a == $.a]",
+    "$..[?search(@.a, $.a)]", "$.b[?!search(@.a, $.c.b)]", "$..[?@.a == $.a]..a", "$..b[?@.a == $.a]", "$..[?@.b == $.c.b && @.a]", "$..b[?@.a <= $.a][?@.b >= $.c.b]", "$.b[?@.a == $.a, ?@.b == $.a]", "$.b[?!(@.a == $.a) && @.b == _.b]",
 ]
 
 
@@ -349,6 +350,71 @@ def t_differential(seed, n):
     return stats
 
 
+# ------------------------------------------------------------------ many abandoned lazy iterators, then the hundredth use
+
+
+def t_abandon(seed, n):
+    """`on the first or the hundredth use of the same compiled object`: partially consumed and dropped
+    iterators (match(), one next() then discard, a broken-off loop) must not leave anything behind"""
+    stats = Stats()
+    env = JSONPathEnvironment(filter_caching=True)
+
+    def body(x):
+        docs, s = x
+        rng = rng_for(s)
+        stats.case()
+        ctxs = [{"a": rng.choice([0, 1, 2, "a", "a+", "("]), "b": 1, "c": [1]}]
+        text = rng.choice(TEMPLATES) if rng.random() < 0.7 else gen_texts(rng, docs, ctxs, 1)[0]
+        if rng.random() < 0.5 and not text.startswith("$.."):
+            text = "$.." + text[2:] if text.startswith("$.") else text
+        try:
+            p = env.compile(text)
+        except Exception:  # noqa: BLE001
+            return
+        snaps = [copy.deepcopy(d) for d in docs]
+        want = [model_for(text, sd, ctxs[0]) for sd in snaps]
+        rounds = rng.choice([3, 10, 130])
+        for r in range(rounds):
+            i = r % len(docs)
+            stats.ev()
+            try:
+                how = r % 3
+                if how == 0:
+                    p.match(docs[i], filter_context=ctxs[0])
+                elif how == 1:
+                    it = iter(p.finditer(docs[i], filter_context=ctxs[0]))
+                    next(it, None)
+                    del it
+                else:
+                    for k, _m in enumerate(p.finditer(docs[i], filter_context=ctxs[0])):
+                        if k >= 1:
+                            break
+            except Exception as e:  # noqa: BLE001
+                if want[i][0] == "ok":
+                    stats.fail("result-differs:abandoned-iterators:raised:%s" % type(e).__name__,
+                               {"docs": snaps, "ctxs": ctxs, "texts": [text], "history": [["abandon", rounds]]},
+                               "%r raised %s: %s on partial use number %d although a fresh evaluation succeeds" % (text, type(e).__name__, e, r + 1))
+                    return
+        for i, d in enumerate(docs):
+            try:
+                got = ("ok", [(tuple(m.parts), canon(m.obj)) for m in p.finditer(d, filter_context=ctxs[0])])
+            except Exception as e:  # noqa: BLE001
+                got = ("err", type(e).__name__)
+            if got != want[i]:
+                stats.fail("result-differs:after-abandoned-iterators", {"docs": snaps, "ctxs": ctxs, "texts": [text], "history": [["abandon", rounds]]},
+                           "%r after %d partially consumed evaluations gives %s, a fresh uncached evaluation gives %s" % (text, rounds, short(got, 160), short(want[i], 160)))
+                return
+            if not jeq(d, snaps[i]):
+                stats.fail("document-modified", {"docs": snaps, "ctxs": ctxs, "texts": [text], "history": [["abandon", rounds]]}, "document %d modified" % i)
+                return
+        stats.cls("abandon-rounds:%d" % rounds)
+        if rounds >= 100:
+            stats.nt("abandon", text, canon(docs))
+
+    hyp_run(cases(), body, n, seed, stats)
+    return stats
+
+
 # ------------------------------------------------------------------ threads (stress sample)
 
 
@@ -411,6 +477,8 @@ def tasks(tier, seed):
         ts.append({"name": "machine-%d" % k, "fn": "t_machine", "kw": {"seed": mix(seed, ID, "m", k), "n": nm}})
     for k in range(5):
         ts.append({"name": "differential-%d" % k, "fn": "t_differential", "kw": {"seed": mix(seed, ID, "d", k), "n": nd}})
+    for k in range(3):
+        ts.append({"name": "abandon-%d" % k, "fn": "t_abandon", "kw": {"seed": mix(seed, ID, "a", k), "n": 250 if tier == "quick" else 5000}})
     return ts
 
 
@@ -483,5 +551,29 @@ def replay(case):
                     break
         elif op == "threads":
             return t_threads(0, 30)
+        elif op == "abandon":
+            p = env.compile(texts[0])
+            for r in range(step[1]):
+                i = r % len(docs)
+                try:
+                    if r % 3 == 0:
+                        p.match(docs[i], filter_context=ctxs[0])
+                    elif r % 3 == 1:
+                        it = iter(p.finditer(docs[i], filter_context=ctxs[0])); next(it, None); del it
+                    else:
+                        for k, _m in enumerate(p.finditer(docs[i], filter_context=ctxs[0])):
+                            if k >= 1:
+                                break
+                except Exception as e:  # noqa: BLE001
+                    stats.fail("result-differs:abandoned-iterators:raised:%s" % type(e).__name__, case, repr(e))
+                    return stats
+            for i, d in enumerate(docs):
+                want = model_for(texts[0], case["docs"][i], case["ctxs"][0])
+                try:
+                    got = ("ok", [norm(m) for m in p.finditer(d, filter_context=ctxs[0])])
+                except Exception as e:  # noqa: BLE001
+                    got = ("err", type(e).__name__)
+                if got != want:
+                    stats.fail("result-differs:after-abandoned-iterators", case, "%s vs %s" % (short(got, 120), short(want, 120)))
         check_docs()
     return stats
